@@ -658,6 +658,10 @@ class TcpConn:
             return self.unit_reply(h, conn, seq, mr, {"kind": "unit", "service": svc})
         parsed = self.parse_mr(msg, "connected")
         if parsed is None:
+            # "connected data beginning with the sequence count": what follows the first two bytes is not a message-router request
+            # (service, path size, padded path) - the item does not have the layout count + request
+            log.v("C11", "connected-data-not-count-plus-request", f"connected data item of {len(item)} bytes: after the first two bytes (taken as sequence count {seq}) "
+                  f"no well-formed request follows", item[:48])
             svc = msg[0] if msg else 0
             mr = mr_reply(svc & 0x7F, ST_PATH_SYNTAX)
             conn.last_reply = mr
